@@ -44,7 +44,15 @@ def run_property(prop, ctx, tier, emit=True, evidence=True, seed=0):
     ctx.explanations[prop] = getattr(mod, "EXPLANATION", "")
     ctx.extra_assumptions[prop] = list(getattr(mod, "ASSUMPTIONS", []))
     rep = Report(prop, tier, ctx, emit=emit)
-    mod.run(ctx, rep)
+    try:
+        mod.run(ctx, rep)
+    except AnalysisError as e:
+        # a later rule lost its anchor: violations already established stand (exit 1); with none, undecided
+        if not rep.classify()[0]:
+            raise
+        rep.note("analysis_stopped", str(e)[:300])
+        if emit:
+            print("NOTE %s: analysis stopped after the violations above: %s" % (prop, str(e)[:200]))
     if tier == "thorough" and hasattr(mod, "thorough"):
         mod.thorough(ctx, rep)
     rep.check_floors()
